@@ -33,7 +33,9 @@ Pool == <<
   PF("m2", <<X("t", <<"r", "R", "s">>)>>, <<"c", "C">>),        \* 20 a case-blind sort leaves to map iteration
   PF("m3", <<X("t", <<"s", "r">>), X("u", <<"s">>)>>, <<>>),    \* 21 rendered with continuation lines that begin with `type with ...` (FilesOf sets cont)
   PF("m1", <<T("c", <<"r">>)>>, <<"t">>),                       \* 22 a type called like the condition of 2 / 10 / 12 / 13 and a condition called like a type: different name spaces, no conflict
-  PF("#",  <<>>, <<>>) >>                                       \* 23 comment and blank lines only: does not parse as a module
+  PF("#",  <<>>, <<>>),                                         \* 23 comment and blank lines only: does not parse as a module
+  PF("m1", <<T("q", <<>>)>>, <<"c">>),                          \* 24, 25: two files of ONE module with the same condition, word for word (FilesOf sets plain)
+  PF("m1", <<>>, <<"c">>) >>
 
 K == Len(PoolSeq)
 RECURSIVE Pow(_, _)
@@ -46,7 +48,7 @@ IdOf(s, i) == IF i > Len(s) THEN "" ELSE ToString(s[i]) \o (IF i < Len(s) THEN "
 NamePrefix(k) == <<"", "", "./", "mods//", "x/../", "">>[(k % 6) + 1]
 FilesOf(s) == [i \in 1..Len(s) |-> [name |-> NamePrefix(s[i] + (3 * i)) \o "f" \o ToString(i) \o ".fga", header |-> Pool[s[i]].header, decls |-> Pool[s[i]].decls, conds |-> Pool[s[i]].conds,
                                     loose |-> (s[i] + i) % 2 = 0,
-                                    eol |-> IF (s[i] + (2 * i)) % 3 = 0 THEN "\r\n" ELSE "\n", cont |-> s[i] = 21, lure |-> s[i] \in {13, 19}, brace |-> s[i] \in {3, 13, 20}]]
+                                    eol |-> IF (s[i] + (2 * i)) % 3 = 0 THEN "\r\n" ELSE "\n", cont |-> s[i] = 21, lure |-> s[i] \in {13, 19}, brace |-> s[i] \in {3, 13, 20}, plain |-> s[i] \in {24, 25}]]
 RECURSIVE Off(_)
 Off(n) == IF n = 0 THEN 0 ELSE Off(n - 1) + Pow(K, n)
 LenFor(i) == CHOOSE n \in 1..MaxFiles : Off(n - 1) < i /\ i <= Off(n)
